@@ -461,8 +461,8 @@ func checkC16(c *Check) {
 	}
 	for _, rel := range []string{"x/market/keeper", "x/deployment/keeper", "x/provider/keeper", "x/audit/keeper"} {
 		for _, fn := range l.pkgFuncs(rel) {
-			if fn.Parent() != nil {
-				continue
+			if fn.Parent() != nil || (isNewFunc(fn) && len(l.callSitesOf(fn)) > 0) {
+				continue // a new helper's writes and emits are accounted with the pinned function that calls it
 			}
 			effs := c.effectsOf(kinds, fn, stateOf)
 			emits := emitsOf(fn)
